@@ -37,6 +37,16 @@ cp "$VR/known_findings.json" "$OUT/known_findings.json"
 if ! (cd "$HC" && CARGO_TARGET_DIR="$BASE/target" cargo build --release --offline -p "$pkg" >"$BASE/build.log" 2>&1); then
   echo "MUTANT-RESULT property=$ID patch=$(basename "$PATCH") error=build-failed (see $BASE/build.log)"; grep -E "^error" -A6 "$BASE/build.log" | head -20; exit 2
 fi
+if [ "$pkg" = "c20" ]; then
+  HS="$BASE/harness-sched"; mkdir -p "$HS"
+  rsync -a --delete --exclude target "$VR/harness-sched/" "$HS/"
+  grep -rl '"/repo' "$HS" --include Cargo.toml | xargs sed -i "s#\"/repo#\"$WT#g"
+  if ! (cd "$HS" && CARGO_TARGET_DIR="$BASE/target-sched" cargo build --release --offline -p c20s >"$BASE/build-sched.log" 2>&1); then
+    echo "MUTANT-RESULT property=$ID patch=$(basename "$PATCH") error=build-failed (see $BASE/build-sched.log)"; grep -E "^error" -A6 "$BASE/build-sched.log" | head -20; exit 2
+  fi
+  export VERIF_C20S_BIN="$BASE/target-sched/release/c20s"
+  mkdir -p "$OUT/preload"; gcc -O2 -shared -fPIC -o "$OUT/preload/getrandom_shim.so" "$VR/preload/getrandom_shim.c"
+fi
 VERIF_ROOT="$OUT" VERIF_TIER="$TIER" "$BASE/target/release/$pkg" | grep -E "^(VIOLATION|KNOWN-FINDING|SUMMARY|MACHINERY-ERROR|NOTE)" | cut -c1-600
 rc=${PIPESTATUS[0]}
 echo "MUTANT-RESULT property=$ID patch=$(basename "$PATCH") tier=$TIER rc=$rc ($([ $rc -eq 1 ] && echo DETECTED || ([ $rc -eq 0 ] && echo not-detected || echo machinery-error)))"
